@@ -48,6 +48,7 @@ theorem singleton (v : Val) (h : Obtained v) : allSingleton v = true := by
   | int => rfl
   | str => rfl
   | alwaysEq => rfl
+  | pretender => rfl
   | list _ ih => simpa [allSingleton, allSingletonList_iff] using ih
   | tuple _ ih => simpa [allSingleton, allSingletonList_iff] using ih
   | set _ ih => simpa [allSingleton, allSingletonList_iff] using ih
@@ -104,15 +105,18 @@ theorem predicates (v dflt : Val) :
 
 /-- C20.falsy_eq: an instance of `Missing` is falsy; `MISSING == v` holds only for `v` being
 `MISSING`; `v == MISSING` holds only for `MISSING` itself unless `v`'s own `__eq__` always answers
-True (which `Missing` cannot influence); reading, setting and deleting an attribute are rejected. -/
+True (which `Missing` cannot influence); reading, setting and deleting an attribute are rejected,
+also when `Missing.__setattr__` is bypassed (`object.__setattr__`, `vars`): there is no storage. -/
 theorem falsy_eq (v : Val) (i : Nat) (name : String) (x : Val) :
     truthy (.missing i) = false ∧
     (eqMissingLeft v = true ↔ v = .missing 0) ∧
     ((∀ j, v ≠ .alwaysEq j) → allSingleton v = true → (eqMissingRight v = true ↔ v = .missing 0)) ∧
     getAttr (.missing i) name = some (.error .attributeError) ∧
     setAttr (.missing i) name x = some (.error .attributeError) ∧
-    delAttr (.missing i) name = some (.error .attributeError) := by
-  refine ⟨rfl, (predicates v v).1, ?_, rfl, rfl, rfl⟩
+    delAttr (.missing i) name = some (.error .attributeError) ∧
+    rawSetAttr (.missing i) name x = some (.error .attributeError) ∧
+    varsOf (.missing i) = some (.error .attributeError) := by
+  refine ⟨rfl, (predicates v v).1, ?_, rfl, rfl, rfl, rfl, rfl⟩
   intro hq hs
   cases v <;> simp_all [eqMissingRight, isMissing, allSingleton]
 
@@ -148,8 +152,12 @@ example : pickle 0 (.dict [(.str "k", .list [.missing 0, .none])])
     = .ok (.dict [(.str "k", .list [.missing 0, .none])]) := by rfl
 
 /-- look-alikes are not missing -/
-example : [Val.none, .bool false, .list [], .dict [], .alwaysEq 1, .missing 7].map isMissing
-    = [false, false, false, false, false, false] := by decide
+example : [Val.none, .bool false, .list [], .dict [], .alwaysEq 1, .pretender 1, .missing 7].map isMissing
+    = [false, false, false, false, false, false, false] := by decide
+
+/-- an object that merely claims `Missing` as its class is kept as it is by `when_missing` -/
+example : whenMissing (.pretender 1) (.str "dflt") = .pretender 1 ∧ notMissing (.pretender 1) = true :=
+  ⟨rfl, rfl⟩
 
 example : eqMissingRight (.alwaysEq 1) = true ∧ eqMissingLeft (.alwaysEq 1) = false := by decide
 
